@@ -333,6 +333,29 @@ func runC18(c *Ctx) {
 			add(&loRun{cfg: cfg, doc: r, enc: enc}, map[string]string{"class": "after-bomb", "attack": "none"})
 		}
 	}
+	// large but legal messages: the inflate bound is on what ONE message inflates to; the same bytes must be
+	// decided alike in both encodings (decided on the Go side: documents of this size are not Coq terms)
+	{
+		gb := c.Group("c18big", nil, "bool", "check_bools")
+		for _, mib := range []float64{0.5, 2.5, 6} {
+			rs := mkSpec(cfg, fresh)
+			filler := strings.Repeat("0123456789abcdef", int(mib*1024*1024/16))
+			r := buildResponse(rs, E("samlp", "Extensions", nil, E("x", "Blob", nil, T(filler))))
+			SignInto(r, 0)
+			verdict := map[string]int{}
+			for _, enc := range encs[:2] {
+				lr := &loRun{cfg: cfg, doc: r, enc: enc}
+				obs, _, _, _ := lr.exec()
+				verdict[enc] = obs
+			}
+			ok := verdict["post"] == 0 && verdict["redirect"] == 0
+			c.Count("class/large-legal-message")
+			c.Add(gb, &Case{Key: map[string]string{"class": "large-legal-message", "MiB": fmt.Sprint(mib)},
+				Input: map[string]any{"inflated_size_MiB": mib, "message": "genuinely signed, fresh, addressed LogoutResponse with a large Extensions text"},
+				Obs:   map[string]any{"post": []string{"valid", "error", "panic"}[verdict["post"]], "redirect": []string{"valid", "error", "panic"}[verdict["redirect"]]},
+				Term:  fmt.Sprint(ok), ImplSpecOK: Bptr(ok), Dedup: fmt.Sprint(mib)})
+		}
+	}
 	// one long-lived ServiceProvider value: the IdP's keys rotated in place, its metadata refreshed, the
 	// logout URL and the IdP entity ID edited in place, the value copied for another IdP
 	for ei, enc := range encs {
